@@ -136,3 +136,10 @@ Definition goroutines_own_their_buffers : bool :=
              seqb where_ "iteration" || negb (buffer_like kind typ)) goroutine_captures.
 Definition spawns (f : string) : bool :=
   existsb (fun g : string * nat => seqb (fst g) f) go_statements.
+
+(* no package-level variable is a byte buffer (it would be shared by every goroutine that
+   runs the functions using it); [allowed] = reviewed exceptions, by name *)
+Definition no_package_level_buffers (allowed : list string) : bool :=
+  forallb (fun v : string * string * string =>
+             let '(name, kind, typ) := v in
+             negb (buffer_like kind typ) || existsb (seqb name) allowed) package_vars.
